@@ -35,7 +35,21 @@ def specs_for(ctx):
                       "build": {"limit": "inf", "fit": rng.choice(["dlite", "taubinSVD"])}, "solve": {"method": "default"},
                       "pressure": True, "require_conditioned": tissue["kind"] == "equilibrium",
                       # a fifth of the pairs transform the live objects in place between two analyses instead of rebuilding
-                      "inplace": rng.random() < 0.2})
+                      "inplace": (not simB["reflect"]) and rng.random() < 0.25})
+    # dynamic inference with adimensional velocities: the same series in two unit systems (time x alpha, length x beta)
+    for i in range(ctx.pick(40, 1500)):
+        nframes = rng.choice([2, 3, 4])
+        tissue = {"kind": "equilibrium", "ncells": rng.choice([6, 10, 16]), "mobius": rng.choice([0.0, 0.8])} if rng.random() < 0.7 else \
+                 {"kind": "catalogue", "base": rng.choice(["hex33", "irregular"]), "sagitta": rng.choice([None, 0.15]), "tseed": rng.randrange(10 ** 6)}
+        alpha = 10 ** rng.uniform(-3, 3) if rng.random() < 0.7 else 1.0
+        beta = 10 ** rng.uniform(-3, 3) if (alpha == 1.0 or rng.random() < 0.3) else 1.0
+        specs.append({"pair": True, "pair_kind": "units", "dynamic": True, "units": [alpha, beta], "tissue": tissue,
+                      "k": rng.choice([2, 4, 8]), "seed": rng.randrange(10 ** 9), "want": ["C06"],
+                      "nframes": nframes, "when": rng.randrange(nframes), "step_frac": rng.choice([0.05, 0.2]),
+                      "mobility": 10 ** rng.uniform(-3, 0),     # slow tissues: junction speeds down to 1e-3 (x 1/alpha) in the data's units
+                      "sim": {"theta": rng.uniform(0, 2 * math.pi), "scale": 1.0, "offset_sizes": rng.uniform(0, 1),
+                              "extent": 1.0 if tissue["kind"] == "equilibrium" else 10.0},
+                      "build": {"fit": "taubinSVD"}, "solve": {"method": "default", "adimensional": True}})
     return specs
 
 
